@@ -403,7 +403,7 @@ theorem Fr.abortFlow : ∀ (fuel : Nat) (f : FUid) (sc : List Score) (d : Bool),
   | fuel + 1, f, sc, d, hG => by
     unfold CoreVM.abortFlow
     have ih := Fr.abortFlow fuel
-    pres_search (Fr G) (frPO G) (first | fr_leaf | exact Fr.dropHeads _ (by g_mem) | exact Fr.setFlowStatus _ _ (by g_mem) | exact Fr.restartActivated _ _ _ (by g_mem) | exact ih _ _ _ (by g_mem) | (refine Fr.bind_getInstX _ ?_ _ ?_; (g_mem); intro x hkids) | (refine Pres.forIn_mem (frPO G) _ _ _ ?_; intro c hc b))
+    pres_search (Fr G) (frPO G) (first | fr_leaf | (refine Fr.dropHeads _ ?_; g_mem) | (refine Fr.setFlowStatus _ _ ?_; g_mem) | (refine Fr.restartActivated _ _ _ ?_; g_mem) | (refine ih _ _ _ ?_; g_mem) | (refine Fr.bind_getInstX _ ?_ _ ?_; (g_mem); intro x hkids) | (refine Pres.forIn_mem (frPO G) _ _ _ ?_; intro c hc b))
 
 
 theorem Fr.setHeadPos (k : Key) (p : Nat) (hG : G k.1) : Pres (Fr G) (setHeadPos k p) := by
@@ -469,7 +469,7 @@ theorem Fr.finishFlow (fuel : Nat) (f : FUid) (sc : List Score) (d : Bool) (hG :
   unfold CoreVM.finishFlow
   have happ := fun (h : HUid) (v : HeadX) => Fr.modifyRest_hx (G := G) f hG (fun r => { r with hx := r.hx ++ [((f, h), v)] }) (fun _ => rfl) (fun r g' h' hne => lookup_append_other f h v r.hx g' h' hne)
   have hop : ∀ h nm, G (Op.mainRestart f h nm).flow := fun _ _ => hG
-  pres_search (Fr G) (frPO G) (first | fr_leaf | exact Fr.dropHeads _ (by g_mem) | exact Fr.setFlowStatus _ _ (by g_mem) | exact Fr.restartActivated _ _ _ (by g_mem) | exact Fr.abortFlow _ _ _ _ (by g_mem) | exact Fr.of_neutral (Neutral.logActionOrIntents _ _ _) | exact Fr.applyOp _ (hop _ _) | exact happ _ _ | (refine Fr.bind_getInstX _ ?_ _ ?_; (g_mem); intro x hkids) | (refine Pres.forIn_mem (frPO G) _ _ _ ?_; intro c hc b))
+  pres_search (Fr G) (frPO G) (first | fr_leaf | (refine Fr.dropHeads _ ?_; g_mem) | (refine Fr.setFlowStatus _ _ ?_; g_mem) | (refine Fr.restartActivated _ _ _ ?_; g_mem) | (refine Fr.abortFlow _ _ _ _ ?_; g_mem) | exact Fr.of_neutral (Neutral.logActionOrIntents _ _ _) | exact Fr.applyOp _ (hop _ _) | exact happ _ _ | (refine Fr.bind_getInstX _ ?_ _ ?_; (g_mem); intro x hkids) | (refine Pres.forIn_mem (frPO G) _ _ _ ?_; intro c hc b))
 
 
 /-! #### `slide` -/
@@ -543,14 +543,14 @@ theorem Fr.slideStep (fuel : Nat) (f : FUid) (h : HUid) (hG : G f) : Pres (Fr G)
   have hgctx := fun (g : List (String × Val) → List (String × Val)) => Fr.modifyRest_other (G := G) (fun r => { r with gctx := g r.gctx }) (fun _ => rfl) (fun _ => rfl)
   have hfork : ∀ nu a p b, G (Op.fork f nu a p b).flow := fun _ _ _ _ => hG
   have hdel : ∀ u, G (Op.delHead f u).flow := fun _ => hG
-  pres_search (Fr G) (frPO G) (first | fr_leaf | exact Fr.setHeadPos _ _ (by g_mem) | exact Fr.setHeadStatus _ _ (by g_mem) | exact Fr.modHeadX _ _ (by g_mem) | exact Fr.setCtxVar _ _ _ (by g_mem) | exact Fr.setFlowStatus _ _ (by g_mem) | exact Fr.abortFlow _ _ _ _ (by g_mem) | exact Fr.of_neutral (Neutral.pickChoice _) | exact Fr.of_same (Same.childHeadUids _ _ _) | exact Fr.applyOp _ (hfork _ _ _ _) | exact Fr.applyOp _ (hdel _) | exact happ _ rfl _ | exact hers _ | exact hgctx _ | (refine Fr.bind_getInstX _ ?_ _ ?_; (g_mem); intro x hkids) | (refine Pres.forIn_mem (frPO G) _ _ _ ?_; intro c hc b))
+  pres_search (Fr G) (frPO G) (first | fr_leaf | (refine Fr.setHeadPos _ _ ?_; g_mem) | (refine Fr.setHeadStatus _ _ ?_; g_mem) | (refine Fr.modHeadX _ _ ?_; g_mem) | (refine Fr.setCtxVar _ _ _ ?_; g_mem) | (refine Fr.setFlowStatus _ _ ?_; g_mem) | (refine Fr.abortFlow _ _ _ _ ?_; g_mem) | exact Fr.of_neutral (Neutral.pickChoice _) | exact Fr.of_same (Same.childHeadUids _ _ _) | exact Fr.applyOp _ (hfork _ _ _ _) | exact Fr.applyOp _ (hdel _) | exact happ _ rfl _ | exact hers _ | exact hgctx _ | (refine Fr.bind_getInstX _ ?_ _ ?_; (g_mem); intro x hkids) | (refine Pres.forIn_mem (frPO G) _ _ _ ?_; intro c hc b))
 
 theorem Fr.slideLoop : ∀ (fuel : Nat) (f : FUid) (h : HUid) (acc : List Key), G f → Pres (Fr G) (slideLoop fuel f h acc)
   | 0, f, h, acc, _ => by unfold CoreVM.slideLoop; exact Pres.throw (frPO G) _
   | fuel + 1, f, h, acc, hG => by
     unfold CoreVM.slideLoop
     have ih := Fr.slideLoop fuel
-    pres_search (Fr G) (frPO G) (first | exact Fr.slideStep _ _ _ (by g_mem) | exact ih _ _ _ (by g_mem))
+    pres_search (Fr G) (frPO G) (first | (refine Fr.slideStep _ _ _ ?_; g_mem) | (refine ih _ _ _ ?_; g_mem))
 
 theorem Fr.slide (fuel : Nat) (f : FUid) (h : HUid) (hG : G f) : Pres (Fr G) (slide fuel f h) := Fr.slideLoop fuel f h [] hG
 
